@@ -38,7 +38,7 @@ DIMS = [[[], ["--no-colors"]],
 
 def plan(tier, seed):
     q = tier == "quick"
-    return [{"mode": "opts", "seed": seed, "shard": i, "n": 3 if q else 40, "full": 1 if q and i < 1 else (0 if q else 3)} for i in range(16)]
+    return [{"mode": "opts", "seed": seed, "shard": i, "n": 2 if q else 40, "full": 1 if q and i < 1 else (0 if q else 3)} for i in range(16)]
 
 
 def pairwise(r):
@@ -237,7 +237,7 @@ def replay(case, sh):
 def finish(merged, tier, seed):
     a = merged["asserts"]
     inc = []
-    for k, floor in (("c16.same_findings_under_every_option_set", 600), ("c16.inline_equals_on_disk", 100),
+    for k, floor in (("c16.same_findings_under_every_option_set", 400), ("c16.inline_equals_on_disk", 100),
                      ("c16.R_CheckDefine_had_something_to_remove", 10)):
         if a.get(k, 0) < floor:
             inc.append("%s evaluated only %d times" % (k, a.get(k, 0)))
